@@ -3,6 +3,8 @@ import BV.Common.Hex
 import BV.Common.Sha256
 import BV.Common.Aead
 import BV.C19.Model
+import BV.C19.Ellswift
+import BV.C19.Session
 namespace BV.C19.Driver
 open BV.Hex BV.Aead BV.C19
 
@@ -49,7 +51,168 @@ def runFsp (key : List UInt8) (msgs : List (List Nat)) : Option String := do
     | _ => none
   pure (digest out.reverse.flatten ++ " " ++ listToHex s.key)
 
+/-- the harness's deterministic replacement of crypto/rand: `prefix` then SHA-256(seed ‖ LE32 i), i = 0,1,… -/
+def rndStream (pre seed : List UInt8) (n : Nat) : List UInt8 :=
+  pre ++ ((List.range ((n + 31) / 32)).map (fun i => BV.Sha256.hashList (seed ++ natLE i 4))).flatten
+
+def hex32 (n : Nat) : String := listToHex (natBE n 32)
+
+def optHex : Option (List UInt8) → String
+  | some b => listToHexTok b
+  | none => "none"
+
+def keysDigest (s : Session) : String :=
+  listToHex ((BV.Sha256.hashList (s.send.l.key ++ s.send.p.key ++ s.recv.l.key ++ s.recv.p.key ++
+    s.sendTerm ++ s.recvTerm)).take 8) ++ "," ++ toString s.send.l.ctr ++ "," ++ toString s.send.p.ctr ++
+    "," ++ toString s.recv.l.ctr ++ "," ++ toString s.recv.p.ctr
+
+/-- post-handshake actions: `s:len:seed:ign:aadlen` = V2EncPacket, `r:aadlen:aadseed` = V2ReceivePacket -/
+def runActions : List (List String) → Session → List UInt8 → List UInt8 → List String → Option (List String × Option Session × List UInt8)
+  | [], s, _, w, out => some (out.reverse, some s, w)
+  | a :: as, s, inp, w, out =>
+    match a with
+    | ["s", len, seed, ign, aadlen] => do
+      let len ← len.toNat?; let seed ← seed.toNat?; let aadlen ← aadlen.toNat?
+      match sendPacket CP s.send (fill seed len) (fill (seed + 1) aadlen) (ign == "1") with
+      | some (b, d') => runActions as { s with send := d' } inp (w ++ b) out
+      | none => runActions as s inp w ("tx=err:content-too-long" :: out)
+    | ["r", aadlen, aadseed] => do
+      let aadlen ← aadlen.toNat?; let aadseed ← aadseed.toNat?
+      match recvPacket CP inp.length s.recv inp (fill aadseed aadlen) with
+      | .ok c d' rest => runActions as { s with recv := d' } rest w (("rx=" ++ digest c) :: out)
+      | .short => some (("rx=err:io" :: out).reverse, none, w)
+      | .authFail => some (("rx=err:auth" :: out).reverse, none, w)
+    | _ => none
+
+def runEp (role : String) (magic : Nat) (pre seed : List UInt8) (gLen : Nat) (decoys : List Nat)
+    (inp : List UInt8) (acts : List (List String)) : Option String := do
+  let rnd := rndStream pre seed (32 + 33 * 256 + (min gLen 4096))
+  let h ← if role == "i" then some (initiator CP hkdfSha256 magic rnd gLen decoys inp)
+          else if role == "r" then some (responder CP hkdfSha256 magic rnd gLen decoys inp) else none
+  match h.status, h.sess with
+  | .ok, some s =>
+    let (outs, s', w) ← runActions acts s h.rest h.written []
+    pure (String.intercalate " " (["hs=ok", "sid=" ++ listToHex s.sessionId] ++ outs ++
+      (match s' with | some s' => ["k=" ++ keysDigest s'] | none => []) ++ ["w=" ++ digest w]))
+  | st, _ => pure ("hs=err:" ++ st.toString ++ " w=" ++ digest h.written)
+
+/-- stream tampering shared with the Go harness (all offsets clamp like `List.take`/`List.drop`) -/
+def tamper1 (w : List UInt8) (op : String) : Option (List UInt8) :=
+  let kind := op.take 1 |>.toString
+  let args := (op.drop 1).toString.splitOn ":"
+  match kind, args with
+  | "f", [off, mask] => do
+    let off ← off.toNat?; let mask ← mask.toNat?
+    pure (if off < w.length then w.take off ++ [(w.getD off 0) ^^^ UInt8.ofNat mask] ++ w.drop (off + 1) else w)
+  | "t", [off] => do
+    let off ← off.toNat?
+    pure (w.take off)
+  | "d", [off, len] => do
+    let off ← off.toNat?; let len ← len.toNat?
+    pure (w.take off ++ w.drop (off + len))
+  | "u", [off, len] => do
+    let off ← off.toNat?; let len ← len.toNat?
+    pure (w.take (off + len) ++ (w.drop off).take len ++ w.drop (off + len))
+  | "x", [off, l1, l2] => do
+    let off ← off.toNat?; let l1 ← l1.toNat?; let l2 ← l2.toNat?
+    pure (w.take off ++ (w.drop (off + l1)).take l2 ++ (w.drop off).take l1 ++ w.drop (off + l1 + l2))
+  | "i", [off, hex] => do
+    let off ← off.toNat?; let b ← hexToList? hex
+    pure (w.take off ++ b ++ w.drop off)
+  | _, _ => none
+
+def tamper (w : List UInt8) (ops : String) : Option (List UInt8) :=
+  if ops == "-" then some w else (ops.splitOn ",").foldlM tamper1 w
+
+/-- packet-layer op: sender and receiver sessions from a given ECDH secret; the sender's packets
+`len:seed:ign:aadlen` go onto a wire, the wire is tampered with, the receiver makes one
+V2ReceivePacket call per entry `aadlen:aadseed` of `recvs`. -/
+def runPk (secret : List UInt8) (magic : Nat) (ini : Bool) (pkts : List (List Nat)) (tam : String)
+    (recvs : List (List Nat)) : Option String := do
+  let k := schedule hkdfSha256 secret magic
+  let mut sd := (mkSession k ini).send
+  let mut wire : List (List UInt8) := []
+  for pk in pkts do
+    match pk with
+    | [len, seed, ign, aadlen] =>
+      match sendPacket CP sd (fill seed len) (fill (seed + 1) aadlen) (ign == 1) with
+      | some (b, d') => sd := d'; wire := b :: wire
+      | none => none
+    | _ => none
+  let w := wire.reverse.flatten
+  let mut inp ← tamper w tam
+  let mut rd := (mkSession k (!ini)).recv
+  let mut out : List String := ["w=" ++ digest w]
+  for r in recvs do
+    match r with
+    | [aadlen, aadseed] =>
+      match recvPacket CP inp.length rd inp (fill aadseed aadlen) with
+      | .ok c d' rest => rd := d'; inp := rest; out := ("rx=" ++ digest c) :: out
+      | .short => return String.intercalate " " (("rx=err:io" :: out).reverse)
+      | .authFail => return String.intercalate " " (("rx=err:auth" :: out).reverse)
+    | _ => none
+  pure (String.intercalate " " (("st=" ++ toString rd.l.ctr ++ "," ++ toString rd.p.ctr ++ "," ++
+    toString sd.p.ctr ++ "," ++ toString (decide (rd = sd))) :: out).reverse)
+
 def handle : List String → String
+  | ["pk", secret, magic, ini, pkts, tam, recvs] =>
+    match hexToList? secret, hexToNat? magic,
+      (if pkts == "-" then some [] else (pkts.splitOn ";").mapM (parseNats? · ":")),
+      (if recvs == "-" then some [] else (recvs.splitOn ";").mapM (parseNats? · ":")) with
+    | some secret, some magic, some pkts, some recvs => (runPk secret magic (ini == "1") pkts tam recvs).getD "bad-op"
+    | _, _, _, _ => "bad-op"
+  | ["xswift", u, t] =>
+    match hexToNat? u, hexToNat? t with
+    | some u, some t =>
+      match Ellswift.xswiftec Ellswift.natOps (u % BV.Secp256k1.p) (t % BV.Secp256k1.p) with
+      | some x => hex32 x
+      | none => "err"
+    | _, _ => "bad-op"
+  | ["xswiftinv", u, x, c] =>
+    match hexToNat? u, hexToNat? x, c.toNat? with
+    | some u, some x, some c =>
+      match Ellswift.xswiftecInv Ellswift.natOps (u % BV.Secp256k1.p) (x % BV.Secp256k1.p) c with
+      | some t => hex32 t
+      | none => "none"
+    | _, _, _ => "bad-op"
+  | ["ecdh", priv, ellT, ellO, ini] =>
+    match hexToNat? priv, hexToList? ellT, hexToList? ellO with
+    | some priv, some ellT, some ellO =>
+      if ellT.length ≠ 64 ∨ ellO.length ≠ 64 then "bad-op" else
+      optHex (Ellswift.ecdhXOnly ellT priv) ++ " " ++ optHex (Ellswift.v2Ecdh priv ellT ellO (ini == "1"))
+    | _, _, _ => "bad-op"
+  | ["create", pre, seed] =>
+    match hexToList? pre, hexToList? seed with
+    | some pre, some seed =>
+      match Ellswift.create (rndStream pre seed (32 + 33 * 256)) with
+      | some (priv, ell, _) => hex32 priv ++ " " ++ listToHex ell ++ " " ++ optHex ((Ellswift.decode ell).map (natBE · 32)) ++
+          " " ++ optHex ((BV.Secp256k1.mulG priv).x?.map (natBE · 32))
+      | none => "err"
+    | _, _ => "bad-op"
+  | ["sched", secret, magic, ini] =>
+    match hexToList? secret, hexToNat? magic with
+    | some secret, some magic =>
+      let k := schedule hkdfSha256 secret magic
+      let s := mkSession k (ini == "1")
+      String.intercalate " " [listToHex k.sessionId, listToHex k.initiatorL, listToHex k.initiatorP,
+        listToHex k.responderL, listToHex k.responderP, listToHex s.sendTerm, listToHex s.recvTerm]
+    | _, _ => "bad-op"
+  | ["vec", secret, magic, ini, idx, contents, mult, aad, ign] =>
+    match hexToList? secret, hexToNat? magic, idx.toNat?, hexToList? contents, mult.toNat?, hexToList? aad with
+    | some secret, some magic, some idx, some contents, some mult, some aad =>
+      let s := mkSession (schedule hkdfSha256 secret magic) (ini == "1")
+      let d := (List.range idx).foldl (fun d _ => match sendPacket CP d [] [] false with
+        | some (_, d') => d' | none => d) s.send
+      match sendPacket CP d (List.replicate mult contents).flatten aad (ign == "1") with
+      | some (b, _) => if b.length ≤ 200 then listToHex b else digest b ++ ":" ++ listToHex (b.drop (b.length - 32))
+      | none => "err:content-too-long"
+    | _, _, _, _, _, _ => "bad-op"
+  | ["ep", role, magic, pre, seed, gLen, decoys, inp, acts] =>
+    match hexToNat? magic, hexToList? pre, hexToList? seed, gLen.toNat?, parseNats? decoys ",", hexToList? inp with
+    | some magic, some pre, some seed, some gLen, some decoys, some inp =>
+      let acts := if acts == "-" then [] else (acts.splitOn ";").map (·.splitOn ":")
+      (runEp role magic pre seed gLen decoys inp acts).getD "bad-op"
+    | _, _, _, _, _, _ => "bad-op"
   | ["fsc", key, chunks] =>
     match hexToList? key, (if chunks == "-" then some [] else (chunks.splitOn ",").mapM (parseNats? · ":")) with
     | some k, some cs => if k.length ≠ 32 then "bad-op" else (runFsc k cs).getD "bad-op"
